@@ -1057,7 +1057,9 @@ def _decorate_new_with_invariants(new_func: CallableT) -> CallableT:
     return wrapper  # type: ignore
 
 
-def _decorate_with_invariants(func: CallableT, is_init: bool) -> CallableT:
+def _decorate_with_invariants(
+    func: CallableT, is_init: bool, name: Optional[str] = None
+) -> CallableT:
     """
     Decorate the method ``func`` with invariant checks.
 
@@ -1065,10 +1067,15 @@ def _decorate_with_invariants(func: CallableT, is_init: bool) -> CallableT:
 
     :param func: function to be wrapped
     :param is_init: True if the ``func`` is __init__
+    :param name:
+        name of the attribute of the class at which the function is set
+        (the function itself might be named differently, *e.g.*, ``__setattr__ = _set``)
     :return: function wrapped with invariant checks
     """
     if _already_decorated_with_invariants(func=func):
         return func
+
+    is_setattr = (name if name is not None else func.__name__) == "__setattr__"
 
     sign = inspect.signature(func)
     param_names = list(sign.parameters.keys())
@@ -1139,7 +1146,7 @@ def _decorate_with_invariants(func: CallableT, is_init: bool) -> CallableT:
 
                 invariants = (
                     instance.__class__.__invariants_on_setattr__
-                    if func.__name__ == "__setattr__"
+                    if is_setattr
                     else instance.__class__.__invariants_on_call__
                 )
 
@@ -1184,7 +1191,7 @@ def _decorate_with_invariants(func: CallableT, is_init: bool) -> CallableT:
 
                 invariants = (
                     instance.__class__.__invariants_on_setattr__
-                    if func.__name__ == "__setattr__"
+                    if is_setattr
                     else instance.__class__.__invariants_on_call__
                 )
 
@@ -1352,7 +1359,7 @@ def add_invariant_checks(cls: ClassT) -> None:
     # The members which have been already decorated (e.g., inherited from a base class) must not be set again
     # on the class: that would shadow the overrides of the other base classes in the method resolution order.
     for name, func in names_funcs:
-        wrapper = _decorate_with_invariants(func=func, is_init=False)
+        wrapper = _decorate_with_invariants(func=func, is_init=False, name=name)
         if wrapper is not func:
             setattr(cls, name, wrapper)
 
